@@ -550,12 +550,22 @@ pub enum HashMode {
     SameSlot,
     /// identity: hash = id (sequential keys fill consecutive slots, tag always 0)
     Ident,
+    /// well distributed, but `Clone` of the builder re-keys it: a clone of the cache must place and
+    /// find its entries with ITS OWN hasher
+    Rekey,
 }
 
-#[derive(Clone, Debug)]
+#[derive(Debug)]
 pub struct SimHashBuilder {
     pub mode: HashMode,
     pub salt: u64,
+}
+
+impl Clone for SimHashBuilder {
+    fn clone(&self) -> SimHashBuilder {
+        let salt = if self.mode == HashMode::Rekey { splitmix64(self.salt ^ 0x5eed) } else { self.salt };
+        SimHashBuilder { mode: self.mode, salt }
+    }
 }
 
 impl SimHashBuilder {
@@ -582,7 +592,7 @@ impl Hasher for SimHasher {
     fn finish(&self) -> u64 {
         let id = self.acc;
         match self.mode {
-            HashMode::Good => splitmix64(id ^ self.salt),
+            HashMode::Good | HashMode::Rekey => splitmix64(id ^ self.salt),
             HashMode::Const => self.salt,
             HashMode::Mod(k) => splitmix64((id % k.max(1) as u64) ^ self.salt),
             HashMode::SameH2 => (splitmix64(id ^ self.salt) & ((1u64 << 57) - 1)) | (0x2au64 << 57),
